@@ -427,3 +427,21 @@ Proof.
     + apply IH. cbn [length] in *. lia.
     + apply add_interval_err in Ea. subst e. discriminate.
 Qed.
+
+(* ------------------------------------------------------------------ *)
+(* 5. non-vacuity: a concrete MemTombstones content (two refs, int64 extremes, negative times)
+      meets the hypotheses; with the bitwise CRC-32C the file is 49 bytes and reads back *)
+Definition ex_stones : list stone :=
+  [ (3, [mkI minInt64 (-5); mkI (-3) 7; mkI 100 maxInt64]); (18446744073709551615, [mkI 0 0]) ].
+
+Lemma ex_stones_ok (crc : list N -> N) :
+  stones_canonical ex_stones /\ wf_stones ex_stones /\
+  read_file crc (write_file crc ex_stones) = ROk ex_stones /\ length (write_file crc ex_stones) = 49%nat.
+Proof.
+  assert (Hc : stones_canonical ex_stones).
+  { unfold stones_canonical, ex_stones. split; [cbn; lia|].
+    repeat constructor; cbn; unfold u64_ok, two64N, wf_iv, int64, minInt64, maxInt64; try lia; try discriminate. }
+  split; [exact Hc|]. split; [apply stones_canonical_wf; exact Hc|].
+  split; [apply tombstone_file_roundtrip_exact; exact Hc|].
+  unfold write_file, write_triples, put_be32. rewrite !app_length, !be_enc_length. vm_compute. reflexivity.
+Qed.
